@@ -221,6 +221,33 @@ def random_tree(rng, d, want_vector=False):
     return ["fn", fn, random_tree(rng, d - 1, True)]
 
 
+def repeated_term_tree(rng):
+    """The same function term (an aggregate, mostly) occurs two or three times in one expression, the earlier
+    occurrence being an operand of an operator that is evaluated before the later one is met:
+    AVG{a}*2+AVG{a}, (MAX{b}-b)/MAX{b}, SUM{a}-(SUM{a}-b)*SUM{a} ...  A value kept for the repeated term must
+    not be the object that an intermediate result was written over."""
+    v = rng.choice(NAMES)
+    fn = rng.choice(E.AGGREGATES + E.AGGREGATES + ["ABS", "D", "I", "SQRT"])
+    arg = ["var", v] if rng.random() < 0.8 else ["bin", rng.choice(["+", "*"]), ["var", v], ["var", rng.choice(NAMES)]]
+    S = ["fn", fn, arg]
+
+    def X():
+        return rng.choice([["num", rng.choice(["2", "3", "0.5"])], ["var", rng.choice(NAMES)], ["var", "x"]])
+    op1, op2 = rng.choice(["+", "-", "*", "/"]), rng.choice(["+", "-", "*", "/"])
+    shape = rng.randrange(6)
+    if shape == 0:
+        return ["bin", op2, ["bin", op1, S, X()], S]                       # S*2+S
+    if shape == 1:
+        return ["bin", op2, ["par", ["bin", op1, S, X()]], S]              # (S-b)/S
+    if shape == 2:
+        return ["bin", op2, ["bin", op1, X(), S], S]                       # 2*S+S
+    if shape == 3:
+        return ["bin", op2, S, ["par", ["bin", op1, S, X()]]]              # S-(S*b)
+    if shape == 4:
+        return ["bin", op2, ["bin", op1, ["bin", "*", S, X()], S], S]      # S*2-S+S
+    return ["bin", op2, ["neg", S, False], ["bin", op1, S, X()]]           # -S+S*2
+
+
 def random_tree_over(rng, d, names):
     """random_tree restricted to the names that exist at this point of a program"""
     t = random_tree(rng, d)
@@ -262,6 +289,9 @@ def cases(chunk):
                 feat[rng.choice(NAMES)][rng.randrange(n)] = float("nan")
             c = env_case(feat, rng)
             ast = random_tree(rng, rng.randrange(1, chunk["maxdepth"] + 1))
+            if i % 6 == 0:
+                ast = repeated_term_tree(rng)
+                c["rt"] = 1
             c.update(form_for(i, ast, rng))
             c["ast"] = ast
             c["via"] = "getitem" if rng.random() < 0.2 else "operate"
@@ -635,6 +665,8 @@ def run_tree(case, ctx):
     if any(v == 0 for k in NAMES for v in env[k]):
         cls.add("zero_input")
     cls.add("size:%d" % n)
+    if case.get("rt"):
+        cls.add("repeated_function_term")
     stmts = case["stmts"] if case["kind"] == "seq" else [case]
     texts = []
     nt = False
@@ -799,7 +831,7 @@ def classify(case, witness):
 
 # floors for the call-history workloads added in session 3 (a run in which they were silently skipped is inconclusive)
 _floors_base = floors
-_FLOORS_EXTRA = {'classes': {'nan_in_minmax': 500}}
+_FLOORS_EXTRA = {'classes': {'nan_in_minmax': 500, 'repeated_function_term': 1000}}
 
 
 def floors(tier):
